@@ -473,7 +473,7 @@ def dtype_rule(check):
 # breaks depends on the parameter.
 CTOR_PARAM_PROPS = [
     (r"modelphy\..*", "source", {"C19"}),
-    (r"modelphy\..*", None, {"C02", "C04", "C10", "C13", "C16", "C17", "C18"}),
+    (r"modelphy\..*", None, {"C02", "C04", "C10", "C13", "C15", "C16", "C17", "C18"}),
     (r"mesh|mesh2d|meshbase", None, {"C20"}),
     (r"xnum", None, {"C11", "C04"}),
 ]
